@@ -349,7 +349,7 @@ func c35(c *an.Check) {
 
 func init() {
 	register(&Def{ID: "C35", Run: c35,
-		Explain:     "Decides on SSA with sticky marks (flag/loop idioms are followed, not pattern-matched): RpcServiceController returns a resolver only on paths where the requested service id passed HasPrefix with a configured prefix, or serviceIdRe.MatchString, or slices.Contains on the configured list — or all three filters are unset — AND the server filter is unset or serverIdRe.MatchString(requested server id) was true; InvokerController only when no prefixes are configured or CheckStripPrefix(requested id, configured prefixes) matched; HTTPHandlerController only when the requested path passed a configured prefix / regexp or none is configured, and the prefix handed to http.StripPrefix is stored only under the HasPrefix(path, thatPrefix) success edge; MatchServeMuxPattern uses the requested method with a constant default. Converse (\"exactly when\"): a lookup is declined only on paths where some positive requirement is not known to hold or a rejecting filter result is known; (PROVENANCE) first match wins: once the matched prefix is recorded the scan over configured prefixes is left.",
+		Explain:     "Decides on SSA with sticky marks (flag/loop idioms are followed, not pattern-matched): RpcServiceController returns a resolver only on paths where the requested service id passed HasPrefix with a configured prefix, or serviceIdRe.MatchString, or slices.Contains on the configured list — or all three filters are unset — AND the server filter is unset or serverIdRe.MatchString(requested server id) was true; InvokerController only when no prefixes are configured or CheckStripPrefix(requested id, configured prefixes) matched; HTTPHandlerController only when the requested path passed a configured prefix / regexp or none is configured, and the prefix handed to http.StripPrefix is stored only under the HasPrefix(path, thatPrefix) success edge; MatchServeMuxPattern uses the requested method with a constant default. Converse (\"exactly when\"): a lookup is declined only on paths where some positive requirement is not known to hold or a rejecting filter result is known; (PROVENANCE) first match wins: once the matched prefix is recorded the scan over configured prefixes is left. EQUIV obligations of lookupRpcService; (GATE) the proxying registration (rpc/access ClientController) applies each pattern to its own request field.",
 		NotCov:      "the 'exactly when' direction (no spurious rejection), regexp semantics, starpc prefix invoker internals.",
 		Assumptions: commonAssumptions})
 }
